@@ -45,6 +45,7 @@ from ..decorators import sdproperty
 
 from ..errors import PGPDecryptionError
 from ..errors import PGPEncryptionError
+from ..errors import PGPError
 
 from ..symenc import _decrypt
 from ..symenc import _encrypt
@@ -474,6 +475,9 @@ class SignatureV4(Signature):
 
     def parse(self, packet):
         super(Signature, self).parse(packet)
+        # the version octet is already consumed; the rest of the body is still ahead
+        pend = len(packet) - (self.header.length - 1)
+
         self.sigtype = packet[0]
         del packet[0]
 
@@ -488,7 +492,12 @@ class SignatureV4(Signature):
         self.hash2 = packet[:2]
         del packet[:2]
 
-        self.signature.parse(packet)
+        # bound the signature material to the remaining length of the packet
+        siglen = len(packet) - pend
+        if siglen < 0:
+            raise PGPError("Signature packet fields do not fit the declared length of the packet")
+        self.signature.parse(packet[:siglen])
+        del packet[:siglen]
 
 
 class SKESessionKey(VersionedPacket):
